@@ -1,5 +1,80 @@
 import Driver.Common
-open Driver
+import GIV.Model.ScriptParse
+open GIV GIV.Script Driver
 
-/-- stub: replaced by the group's model driver. -/
-def main : IO Unit := run (fun _ => "bad-op")
+/-! Model driver for the `script` group (C02).
+
+Lists are `,`-separated hex strings, `.` is the empty list, `-` the empty byte string.
+
+* `run <cd> <names> <vars> <lines>` — a whole script: `vars` are the `Env.Vars` strings at the end of
+  Setup, `lines` the script lines.  One result per line, `;`-separated:
+  `E` tokenizer error, `N` no arguments, `V` an `env` line (applied with cmdEnv),
+  `P:<args>|<Getenv of every name>` a `probe` line, `X:<child environment strings>` / `X:nul` an `exec` line,
+  `O:<args>` anything else.
+* `parse <vars> <line>` — `E` or `A:<args>`.
+* `ox <vars> <text>` — `ts.expand(text)`.
+* `qm <text>` — `regexp.QuoteMeta(text)`.
+* `dedup <strings>` — os/exec dedupEnv: `nul` or the list.
+-/
+
+def showList (l : List Bytes) : String :=
+  if l.isEmpty then "." else String.intercalate "," (l.map toHex)
+
+def readList (s : String) : Option (List Bytes) :=
+  if s == "." then some [] else (s.splitOn ",").mapM fromHex
+
+def showChild : Except ExecErr (List Bytes) → String
+  | .ok l => showList l
+  | .error .nul => "nul"
+
+/-- One script line: new state and the observation. -/
+def stepLine (cd : Bytes) (names : List Bytes) (ts : TS) (line : Bytes) : TS × String :=
+  match parseLine ts.envMap line with
+  | .error .unterminated => (ts, "E")
+  | .error .panic => (ts, "PANIC")
+  | .ok [] => (ts, "N")
+  | .ok (cmd :: args) =>
+    if cmd = lit "env" then
+      (if args.isEmpty then ts else cmdEnv ts args, "V")
+    else if cmd = lit "probe" then
+      (ts, "P:" ++ showList (cmd :: args) ++ "|" ++ showList (names.map ts.getenv))
+    else if cmd = lit "exec" then
+      (ts, "X:" ++ showChild (ts.childEnv cd))
+    else (ts, "O:" ++ showList (cmd :: args))
+
+def runLines (cd : Bytes) (names : List Bytes) : TS → List Bytes → List String
+  | _, [] => []
+  | ts, l :: rest =>
+    let r := stepLine cd names ts l
+    r.2 :: runLines cd names r.1 rest
+
+def step (line : String) : String :=
+  match line.splitOn " " with
+  | ["run", cd, names, vars, lines] =>
+    match fromHex cd, readList names, readList vars, readList lines with
+    | some cd, some names, some vars, some lines =>
+      String.intercalate ";" (runLines cd names (TS.setup vars) lines)
+    | _, _, _, _ => "bad-op"
+  | ["parse", vars, l] =>
+    match readList vars, fromHex l with
+    | some vars, some l =>
+      match parseLine (TS.setup vars).envMap l with
+      | .ok args => "A:" ++ showList args
+      | .error .unterminated => "E"
+      | .error .panic => "PANIC"
+    | _, _ => "bad-op"
+  | ["ox", vars, t] =>
+    match readList vars, fromHex t with
+    | some vars, some t => toHex (expand (TS.setup vars).envMap t)
+    | _, _ => "bad-op"
+  | ["qm", t] =>
+    match fromHex t with
+    | some t => toHex (quoteMeta t)
+    | none => "bad-op"
+  | ["dedup", l] =>
+    match readList l with
+    | some l => showChild (dedupEnv l)
+    | none => "bad-op"
+  | _ => "bad-op"
+
+def main : IO Unit := run step
